@@ -110,5 +110,34 @@ func (f *vfForeign) Write(ctx context.Context, src *GroupContext, n int) error {
 	}
 	vfSyncHeads(ctx, src.MetadataStore(), f.gc.MetadataStore().OpLog().Heads().Slice())
 	vfSyncHeads(ctx, src.MessageStore(), f.gc.MessageStore().OpLog().Heads().Slice())
+	f.Settle(src)
 	return nil
+}
+
+// Settle waits until the node has reacted to the new member on its own (an activated group context announces its
+// chain key to it: one more entry of the node itself) and both logs have stopped growing; what a driver observes
+// next (a listing, an export) is then taken on a log that is at rest
+func (f *vfForeign) Settle(src *GroupContext) {
+	idx, _ := src.MetadataStore().Index().(*metadataStoreIndex)
+	deadline := time.Now().Add(60 * time.Second)
+	lastM, lastG, stable := -1, -1, time.Now()
+	for {
+		m, g := src.MetadataStore().OpLog().Len(), src.MessageStore().OpLog().Len()
+		if m != lastM || g != lastG {
+			lastM, lastG, stable = m, g, time.Now()
+		}
+		sent := true
+		if idx != nil {
+			if ok, err := idx.areSecretsAlreadySent(f.gc.MemberPubKey()); err == nil {
+				sent = ok
+			}
+		}
+		if sent && time.Since(stable) > 1500*time.Millisecond {
+			return
+		}
+		if time.Now().After(deadline) {
+			vfInfra("the node's logs do not settle after the second writer's entries")
+		}
+		time.Sleep(50 * time.Millisecond)
+	}
 }
